@@ -261,3 +261,103 @@ Theorem repaired_store_keeps_both_records :
     puts dir_kind_fixed st0 [([97], an_obj); ([98;97], an_nc)] = Ok s2 /\
     length (st_nc s1) = 1%nat /\ length (st_nc s2) = 1%nat /\ length (st_done s1) = 1%nat /\ length (st_done s2) = 1%nat.
 Proof. exact dir_fixed_suffix_ids_both_orders. Qed.
+
+(* ================================================================== the CURRENT (repaired) code *)
+
+(** [apply_to_v repaired], [proxy_input_v repaired], [write_nc_v repaired] are the code after the repairs of
+    _proxy_input (only None / empty str skipped), _apply_to (every input in a source_proxy) and of the store writes
+    (an existing member is replaced, never listed twice).  The theorems below need NO hypothesis on the inputs beyond
+    unique identifiers: inputs of any truthiness, inputs carrying their own .source, results that lose their source
+    ([plain_input] is gone), and failing inputs that already have a not-completed record. *)
+Theorem repaired_store_is_spec_dictionary : forall K U, good_kind K U -> forall rs st,
+  ready K U st rs ->
+  puts_r K st rs = Ok (mkstore (final_done K st rs) (final_nc_r K st rs) (st_logs st) (st_mode st)).
+Proof. exact puts_r_final. Qed.
+
+Theorem repaired_schedule_independent : forall K U, good_kind K U -> forall st rs rs',
+  ready K U st rs -> Permutation rs rs' ->
+  exists st1 st2, puts_r K st rs = Ok st1 /\ puts_r K st rs' = Ok st2 /\
+    Permutation (st_done st1) (st_done st2) /\ Permutation (st_nc st1) (st_nc st2) /\
+    st_logs st1 = st_logs st2 /\ st_mode st1 = st_mode st2.
+Proof. exact puts_r_any_order. Qed.
+
+Theorem repaired_exactly_one_record_completed : forall K U, good_kind K U -> forall st rs a d,
+  ready K U st rs -> In (a, d) rs -> is_nc d = false ->
+  In (k_fname K a, (a, d)) (final_done K st rs) /\ ~ In (k_ncname K a) (map fst (final_nc_r K st rs)).
+Proof. exact final_r_completed_once. Qed.
+
+Theorem repaired_exactly_one_record_failed : forall K U, good_kind K U -> forall st rs a d,
+  ready K U st rs -> In (a, d) rs -> is_nc d = true ->
+  In (k_ncname K a, d) (final_nc_r K st rs) /\ ~ In (k_fname K a) (map fst (final_done K st rs)).
+Proof. exact final_r_failed_once. Qed.
+
+(** no freshness hypothesis any more: a failing input that already had a not-completed record keeps ONE *)
+Theorem repaired_no_duplicate_not_completed : forall K U, good_kind K U -> forall st rs,
+  ready K U st rs -> NoDup (map fst (st_nc st)) -> NoDup (map fst (final_nc_r K st rs)).
+Proof. exact final_nc_r_nodup. Qed.
+
+Theorem repaired_inputs_all_proxied_none_dropped : forall l,
+  proxy_input_v repaired true l = map (fun e => Wrapped e e) l.
+Proof. exact proxy_input_repaired. Qed.
+
+Theorem repaired_apply_to_serial_is_spec : forall K U, good_kind K U -> forall chain st inputs ids,
+  chain <> [] -> inputs <> [] -> st_mode st <> 0 ->
+  map (fun m => unique_id_of (source_of m)) inputs = map Some ids ->
+  NoDup ids -> incl ids U ->
+  apply_to_v repaired K chain st inputs None false =
+    Ok (mkstore (final_done K st (records_of chain (todo_of K st ids inputs)))
+                (final_nc_r K st (records_of chain (todo_of K st ids inputs))) (st_logs st) (st_mode st)).
+Proof. exact apply_to_r_serial. Qed.
+
+Theorem repaired_apply_to_any_completion_order : forall K U, good_kind K U -> forall chain st inputs ids,
+  chain <> [] -> inputs <> [] -> st_mode st <> 0 ->
+  map (fun m => unique_id_of (source_of m)) inputs = map Some ids ->
+  NoDup ids -> incl ids U ->
+  forall sched, Permutation sched (seq 0 (length (todo_of K st ids inputs))) ->
+  exists st', apply_to_v repaired K chain st inputs (Some sched) false = Ok st' /\
+    Permutation (st_done st') (final_done K st (records_of chain (todo_of K st ids inputs))) /\
+    Permutation (st_nc st') (final_nc_r K st (records_of chain (todo_of K st ids inputs))) /\
+    st_logs st' = st_logs st /\ st_mode st' = st_mode st.
+Proof. exact apply_to_r_any_schedule. Qed.
+
+Theorem repaired_chunking_irrelevant : forall K U, good_kind K U -> forall chain st inputs ids,
+  chain <> [] -> inputs <> [] -> st_mode st <> 0 ->
+  map (fun m => unique_id_of (source_of m)) inputs = map Some ids ->
+  NoDup ids -> incl ids U ->
+  forall (chunks : list (list item)) its',
+  Permutation (concat chunks) (proxy_input_v repaired true (map snd (todo_of K st ids inputs))) ->
+  Permutation its' (concat (map (map (source_wrapped chain)) chunks)) ->
+  exists st', write_results_v repaired K st its' = Ok st' /\
+    Permutation (st_done st') (final_done K st (records_of chain (todo_of K st ids inputs))) /\
+    Permutation (st_nc st') (final_nc_r K st (records_of chain (todo_of K st ids inputs))) /\
+    st_logs st' = st_logs st /\ st_mode st' = st_mode st.
+Proof. exact chunking_r_irrelevant_full. Qed.
+
+Theorem repaired_logging_only_adds_a_log : forall V K chain st inputs sched,
+  apply_to_v V K chain st inputs sched true =
+    match apply_to_v V K chain st inputs sched false with
+    | Exc e => Exc e
+    | Ok st' =>
+        match check_writable K st' s_dotlog with
+        | Some e => Exc e
+        | None => Ok (mkstore (st_done st') (st_nc st') (st_logs st' + 1) (st_mode st'))
+        end
+    end.
+Proof. exact apply_to_v_logging. Qed.
+
+(** non-vacuity, and the contrast with the pinned code on the same inputs: a falsy object and an object with its own
+    .source whose stage returns a NotCompleted without source — one record each under the repaired code; dropped,
+    respectively TypeError, under the pinned code *)
+Theorem repaired_accounts_for_falsy_and_bare_inputs :
+  map (fun m => unique_id_of (source_of m)) awkward_inputs = map Some [[111;49]; [111;50]] /\
+  (exists st', apply_to_v repaired dict_kind nosrc_chain st0 awkward_inputs (Some [1;0]%nat) false = Ok st'
+               /\ length (st_done st') = 1%nat /\ length (st_nc st') = 1%nat) /\
+  (exists st', apply_to dict_kind nosrc_chain st0 (firstn 1 awkward_inputs) None false = Ok st'
+               /\ length (st_done st') = 0%nat /\ length (st_nc st') = 0%nat) /\
+  apply_to dict_kind nosrc_chain st0 (tl awkward_inputs) None false = Exc E_Type.
+Proof. exact repaired_accounts_for_awkward_inputs. Qed.
+
+Theorem repaired_rerun_replaces_not_completed :
+  exists s1, puts_r dict_kind (mkstore [] [([97], an_nc)] 0 2) [([97], VNC s_ERROR [108] [110;101;119] None)] = Ok s1 /\
+    st_nc s1 = [([97], VNC s_ERROR [108] [110;101;119] None)].
+Proof. exact repaired_rerun_no_duplicate. Qed.
